@@ -86,7 +86,7 @@ def project(history, steps, k, path=None, drop_kinds=('write',), keep_failed=Fal
 
 
 def _keep(op, st, fid, lf_fid, h_lf, drop_kinds, keep_failed):
-    if op.get('op') in drop_kinds or op.get('op') in ('restart', 'flood', 'encode', 'cache_info'):
+    if op.get('op') in drop_kinds or op.get('op') in ('restart', 'flood', 'encode', 'cache_info', 'concurrent_writes'):
         return False
     if op.get('op') in ENV_OPS:
         return st is not None and st.get('out') == 'ok'      # the environment of the process belongs to every projection
